@@ -1,4 +1,5 @@
 mod child;
+mod cidexec;
 mod exec;
 mod keys;
 mod node;
@@ -7,6 +8,7 @@ mod refpb;
 mod rng;
 mod sink;
 mod streams {
+    pub mod cidl;
     pub mod codec;
     pub mod node;
 }
@@ -66,6 +68,12 @@ fn main() {
         "chunks" => streams::codec::chunks_stream(seed, cases, arg(&args, "--cutlen", 200), &mut ex),
         "noncanon" => streams::codec::noncanon_stream(seed, cases, &mut ex),
         "shortframes" => streams::codec::shortframes_stream(maxlen, &mut ex),
+        "prefix" => streams::cidl::prefix_stream(seed, cases, maxlen, &mut ex),
+        "tocid" => streams::cidl::tocid_stream(seed, cases, &mut ex),
+        "conv" => streams::cidl::conv_stream(seed, cases, &mut ex),
+        "hash" => streams::cidl::hash_stream(seed, cases, args.iter().any(|a| a == "--exhaustive"), &mut ex),
+        "procmsg" => streams::cidl::procmsg_stream(seed, cases, &mut ex),
+        "proto" => streams::cidl::proto_stream(seed, cases, maxlen, &mut ex),
         "node" => streams::node::node_stream(seed, cases, streams::node::Cfg { keys: arg(&args, "--keys", 5), peers: arg(&args, "--peers", 3), ops: arg(&args, "--ops", 80), big_wantlists: false }),
         "nodebig" => streams::node::node_stream(seed, cases, streams::node::Cfg { keys: 3100, peers: 2, ops: arg(&args, "--ops", 30), big_wantlists: true }),
         _ => {
